@@ -48,15 +48,23 @@ def parseReq (j : Json) : Req :=
   let (segs, q) := parseTarget (jstrD j "path")
   let body := jstrD j "body"
   let parsed := (Json.parse body).toOption
-  let name := parsed.bind fun b => (b.getObjVal? "name").toOption.bind (·.getStr?.toOption)
+  let itemName (b : Json) : Option String := (b.getObjVal? "name").toOption.bind (·.getStr?.toOption)
+  let itemText (b : Json) : String :=
+    "{\"name\":" ++ jsonStrLit ((itemName b).getD "") ++ ",\"count\":" ++ toString (((b.getObjVal? "count").toOption.bind (·.getInt?.toOption)).getD 0) ++ "}"
+  let name := parsed.bind itemName
   let count := (parsed.bind fun b => (b.getObjVal? "count").toOption.bind (·.getInt?.toOption)).getD 0
   { method := jstrD j "method", segs := segs, query := q,
     headers := (objEntries ((j.getObjVal? "headers").toOption.getD Json.null)).map fun (k, v) => (k, v.getStr?.toOption.getD ""),
     form := (objEntries ((j.getObjVal? "form").toOption.getD Json.null)).filterMap fun (k, v) =>
       match v with | .arr xs => xs[0]?.map fun x => (k, x.getStr?.toOption.getD "") | _ => none,
     hasBody := !body.isEmpty,
-    bodyOk := parsed.isSome && (name.map (!·.isEmpty)).getD false,
-    body := "{\"name\":" ++ jsonStrLit (name.getD "") ++ ",\"count\":" ++ toString count ++ "}",
+    bodyOk := (match parsed with
+      | some (.arr xs) => xs.toList.all fun x => ((itemName x).map (!·.isEmpty)).getD false     -- every element is validated
+      | some _ => (name.map (!·.isEmpty)).getD false
+      | none => false),
+    body := (match parsed with
+      | some (.arr xs) => "[" ++ " ".intercalate (xs.toList.map itemText) ++ "]"
+      | _ => "{\"name\":" ++ jsonStrLit (name.getD "") ++ ",\"count\":" ++ toString count ++ "}"),
     deny := strList j "deny" }
 
 def buildRoutes (p : PProject) : Option (List SRoute) :=
